@@ -5237,8 +5237,9 @@ class DfaCompileCtx:
                 if ignore_map_counter[(frozenset(to_replace.on_values), to_replace.target)] > max_count:
                     continue
 
-            # Shortcircuit the transition
-            if to_replace.error_handling:
+            # Shortcircuit the transition (a transition that validly consumes its byte stays a valid one: only what happened on the
+            # _next_ byte was a catch-all, and that now happens right away)
+            if to_replace.error_handling and transition.is_fallthrough:
                 transition.handles_else()
 
             transition.attach(*to_replace.actions)
